@@ -105,6 +105,41 @@ SecRule REQUEST_HEADERS:x-p "@streq b" "id:3,phase:1,pass,t:lowercase"
 		return
 	}
 	defer closeAny(w)
+	// MATCHED_VAR changes its content during the phase; the two contents share their first bytes (the
+	// file name is a prefix of the raw URI) and differ in length by 1 + the length of the query string
+	text2 := `SecRuleEngine On
+SecRule REQUEST_URI_RAW "@unconditionalMatch" "id:11,phase:1,pass"
+SecRule MATCHED_VAR "@streq %d" "id:12,phase:1,pass,t:length"
+SecRule REQUEST_FILENAME "@unconditionalMatch" "id:13,phase:1,pass"
+SecRule MATCHED_VAR "@streq 2" "id:14,phase:1,pass,t:length"
+SecRule REQUEST_URI_RAW "@unconditionalMatch" "id:15,phase:1,pass,chain"
+SecRule MATCHED_VAR "@streq %d" "t:length"
+`
+	for _, ql := range []int{1, 253, 254, 65533, 65534, 65535, 65536, 131071} {
+		t2 := fmt.Sprintf(text2, 3+ql, 3+ql)
+		w2, err := coraza.NewWAF(coraza.NewWAFConfig().WithDirectives(t2))
+		if err != nil {
+			run.Inconclusive("scale configuration rejected: %v", err)
+			return
+		}
+		tx := w2.NewTransaction()
+		tx.ProcessURI("/p?"+strings.Repeat("q", ql), "GET", "HTTP/1.1")
+		tx.ProcessRequestHeaders()
+		fired := map[int]bool{}
+		for _, mr := range tx.MatchedRules() {
+			fired[mr.Rule().ID()] = true
+		}
+		_ = tx.Close()
+		closeAny(w2)
+		run.Eval(fmt.Sprintf("scale-prefix-%d", ql))
+		for _, id := range []int{11, 12, 13, 14, 15} {
+			if !fired[id] {
+				run.Violate(vf.Violation{Signature: "cache:scaled-instance|matched-var-prefix", What: fmt.Sprintf("MATCHED_VAR holds first the raw URI (%d bytes) and later the file name (2 bytes, same leading bytes): rule %d, which compares t:length of the current content, must fire and did not (fired: %v) || %s",
+					3+ql, id, fired, strings.ReplaceAll(t2, "\n", " ; ")), Replay: map[string]any{"family": "scale", "query_length": ql, "directives": t2}})
+				return
+			}
+		}
+	}
 	for _, k := range []int{1, 255, 256, 257, 65535, 65536, 65537, vf.Pick(run, 70000, 140000)} {
 		for _, where := range []string{"last", "first", "both"} {
 			var q strings.Builder
